@@ -1378,3 +1378,24 @@ def replay_known(f):
         b = s.bin(np.array([2., 3., 6.]), interp_method='simps', ends='inside', preserve_power=False)
         return not np.allclose(a, b)
     return False
+
+
+
+# ------------------------------------------------------------------ WP-T3: translation layer (source -> Gallina)
+# An ADDITIONAL tie (DESIGN 10.3): harness/gen_src.py (suite 'C15') translates the np.linspace arguments (padding sample counts) of lentil/radiometry.py:Spectrum.pad on an integer wavelength grid
+# from the CURRENT source text into coq/theories/Gen/SpectrumSrc.v; Proofs/SpectrumSrcP.v proves every translated term equal to the model for
+# all integers; Properties/C15Src.v states it.  Policy: a function the translator refuses is only reported; a
+# translated function whose equivalence lemma no longer compiles is compared with the model mirror on sampled points,
+# an exhaustive small box and random points - a found disagreement is a VIOLATION with that witness (replayable: op
+# 'src'), none found is reported as unproved.  The build of C15Src happens here, never in COQ_TARGETS.
+def extra(tier, rng):
+    from .. import gen_src as G
+    return G.run_layer('C15', ID, tier, rng, C)
+
+
+def _wrap_src_replay():
+    from .. import gen_src as G
+    return G.wrap_replay(run_impl, oracle, C)
+
+
+run_impl, oracle = _wrap_src_replay()
